@@ -1520,20 +1520,35 @@ bintShift(BInt b, int n)
 BInt
 bintShiftRem(BInt b, int n)
 {
-	BInt r;
-	int  i, top;
+	BInt   r;
+	Length i, rc;
+	int    top;
 	/* Returns lowest `n' bits from b. */
-	
+
+	if (n <= 0) return bint0;
+
 	if (IsImmed(b)) {
 		IInt x = BIntToInt(b);
-		return IntToBInt(x & ((1 << n) - 1));
+		if (n >= (int) INT_LG_IMMED) return b;
+		return IntToBInt(x & ((((IInt) 1) << n) - 1));
 	}
 
-	r = bintAlloc(n);
-	
-	for (i=0; i<Placea(r) - 1; i++) Placev(r)[i] = Placev(b)[i];
-	top = n - BINT_LG_RADIX*(Placec(r) - 1);
-	Placev(r)[i] = Placev(b)[i] & ((1<< top) - 1);
+	/* All of b's bits are wanted. */
+	if ((Length) n >= BINT_LG_RADIX * Placec(b)) return bintCopy(b);
+
+	r  = bintAlloc(n);
+	rc = QUO_ROUND_UP((Length) n, BINT_LG_RADIX);
+
+	for (i = 0; i + 1 < rc; i++) Placev(r)[i] = Placev(b)[i];
+	top = n - BINT_LG_RADIX * (rc - 1);		/* 1..BINT_LG_RADIX */
+	Placev(r)[i] = (top == BINT_LG_RADIX)
+		? Placev(b)[i]
+		: Placev(b)[i] & ((((BIntS) 1) << top) - 1);
+
+	/* Drop leading zero digits. */
+	while (rc > 0 && Placev(r)[rc - 1] == 0) rc--;
+	Placec(r) = rc;
+	IsNeg(r)  = false;
 
 	return xintImmedIfCan(r);
 }
